@@ -53,13 +53,19 @@ pub fn text_of(doc: &str, ver: usize) -> String {
         "X" => "class aX\n\nproc P_X(A : Int4)\n   var x : Int4\n   var y : aD\n   x = y.\nendProc\n".to_string(),
         "BD" | "BE" => format!("class a{}\n\nF_B : Int4\n\nproc M\nendProc\n", doc),
         _ => {
+            // members before the methods (a declaration that follows a method lands in that method's scope);
+            // the field names grow with the version, the filler shifts the later methods
+            let fx = "x".repeat(ver);
             let mut l: Vec<String> = vec![
                 format!("class a{} (aB{})", doc, doc),
+                String::new(),
+                format!("F_{}_{}{} : Int4", doc, ver, fx),
+                format!("G_{}_{} : Int4", doc, ver),
                 String::new(),
                 format!("proc P_{}_{}(A : Int4)", doc, ver),
                 "   var x : Int4".into(),
                 format!("   var u_{}_{} : Int4", doc, ver),
-                format!("   x = self.F_{}_{} + A", doc, ver),
+                format!("   x = A + self.F_{}_{}{}", doc, ver, fx),
                 "   x = self.".into(),
                 "endProc".into(),
                 String::new(),
@@ -67,8 +73,9 @@ pub fn text_of(doc: &str, ver: usize) -> String {
             for i in 0..ver {
                 l.push(format!("const cK{} = 'k'", i));
             }
-            l.push(format!("F_{}_{} : Int4", doc, ver));
-            l.push(format!("g_{}_{} : Int4", doc, ver));
+            l.push(String::new());
+            l.push(format!("proc q_{}_{}", doc, ver));
+            l.push("endProc".into());
             l.push(String::new());
             l.push("proc M".into());
             l.push("endProc".into());
@@ -153,13 +160,12 @@ fn th_item(root: &Path, doc: &str, name: &str, kind: SymbolKind) -> TypeHierarch
 /// one request on the real manager; positions refer to the fixed part of the text (before the filler)
 pub fn do_request(pm: &mut ProjectManager, root: &Path, kind: &str, doc: &str) -> String {
     let uri = uri_of(root, doc);
-    let line5 = format!("   x = self.F_{}_1 + A", doc);
     match kind {
         "sym" => answer_string(root, pm.generate_document_symbols(&uri)),
         "diag" => answer_string(root, pm.generate_document_diagnostic_report(&uri).map(|r| (*r).clone())),
-        "compl" => answer_string(root, pm.generate_completion_proposals(&uri, &Position::new(6, "   x = self.".len()))),
-        "def" => answer_string(root, pm.generate_goto_definitions(&uri, &Position::new(5, "   x = self.".len() + 1))),
-        "defp" => answer_string(root, pm.generate_goto_definitions(&uri, &Position::new(5, line5.len() - 1))),
+        "compl" => answer_string(root, pm.generate_completion_proposals(&uri, &Position::new(9, "   x = self.".len()))),
+        "def" => answer_string(root, pm.generate_goto_definitions(&uri, &Position::new(8, "   x = A + self.".len() + 1))),
+        "defp" => answer_string(root, pm.generate_goto_definitions(&uri, &Position::new(8, "   x = ".len()))),
         "prep" => answer_string(root, pm.prepare_type_hierarchy(&uri, &Position::new(0, 7))),
         "subc" => {
             let b = format!("B{}", doc);
@@ -683,6 +689,10 @@ fn run_forced(case: &Case, root: &Path, hist: &Arc<Hist>, pool: &Arc<ThreadPool>
         let cls = classify(&case.base, kind, doc, &ans, &hist.all(&t));
         let allowed = hist.allowed(&t, slot.lo.load(Ordering::SeqCst), slot.hi.load(Ordering::SeqCst));
         words.push(format!("t{}={}/{}", id, cls, allowed.iter().map(|v| v.to_string()).collect::<Vec<_>>().join(".")));
+        if std::env::var("CONC_DUMP").is_ok() {
+            // debugging aid: the raw canonical answer
+            eprintln!("t{} {}:{} -> {}", id, kind, doc, ans.clone().unwrap_or_default());
+        }
     }
     if !must_exit && !case.probes.is_empty() {
         let mut q = Vec::new();
